@@ -41,6 +41,7 @@ type run struct {
 	decisions int
 	simStart  time.Time
 	stuck     bool
+	stalled   map[*simmongo.Pending]int // database commands the simulated database is slow to answer
 }
 
 type heldResp struct {
@@ -118,7 +119,7 @@ func Execute(t *testing.T, plan *kernel.Plan, known map[string]bool, verbose boo
 	r := &run{prop: plan.Property, cfg: cfg, known: known, verbose: verbose,
 		res:   &kernel.Result{Faults: map[string]int{}, Probes: map[string]int{}},
 		trace: kernel.NewHasher(), slog: kernel.NewHasher(), states: map[uint64]bool{},
-		lagging: map[string]bool{}, cmdNo: map[string]int{}}
+		lagging: map[string]bool{}, cmdNo: map[string]int{}, stalled: map[*simmongo.Pending]int{}}
 	finish := func() {
 		r.res.Violation = r.viol
 		r.res.Steps = r.decisions
@@ -303,6 +304,9 @@ func (r *run) items(f *focus) []item {
 		if r.lagging[p.Owner] && !f.lag {
 			continue
 		}
+		if r.stalled[p] > 0 {
+			continue
+		}
 		if f.all || f.owners[p.Owner] {
 			out = append(out, item{kind: "cmd", key: p.Owner + "|" + p.Key, p: p})
 		}
@@ -396,6 +400,15 @@ func (r *run) answerCmd(p *simmongo.Pending, faults []MongoFault) {
 			case "slow":
 				r.fault("mongo-slow")
 				w.tick(time.Duration(5500+w.lat.Intn(3000)) * time.Millisecond)
+			case "stall":
+				// the database sits on this command while everything else goes on
+				if _, seen := r.stalled[p]; !seen {
+					r.cmdNo[p.Owner]--
+					r.fault("mongo-stall")
+					r.stalled[p] = 8 + w.lat.Intn(20)
+					r.logf("  db %s #%d %s is stalled", p.Owner, k, p.Name)
+					return
+				}
 			}
 		}
 	}
@@ -504,6 +517,24 @@ func (r *run) pump(f *focus, g *kernel.Rng, faults []MongoFault, stopAnswered bo
 			}
 			its = keep
 		}
+		for p, n := range r.stalled {
+			if n > 0 {
+				r.stalled[p] = n - 1
+			}
+		}
+		if len(its) == 0 && r.anyStalled() {
+			// only the stalled command is left: time passes (lock leases may run out), then it is answered
+			idle++
+			if idle < 24 {
+				time.Sleep(500 * time.Millisecond)
+				continue
+			}
+			for p := range r.stalled {
+				r.stalled[p] = 0
+			}
+			idle = 0
+			continue
+		}
 		if len(its) == 0 {
 			if !r.focusBusy(f) {
 				return
@@ -551,6 +582,15 @@ func (r *run) pump(f *focus, g *kernel.Rng, faults []MongoFault, stopAnswered bo
 func (r *run) hasPending(owner string) bool {
 	for _, p := range r.w.mongo.PendingList() {
 		if p.Owner == owner {
+			return true
+		}
+	}
+	return false
+}
+
+func (r *run) anyStalled() bool {
+	for _, n := range r.stalled {
+		if n > 0 {
 			return true
 		}
 	}
